@@ -327,7 +327,8 @@ def gen_stream(rng, fw, role, ser_id, max_recv):
     n = rng.choice([0, 1, 1, 2, 3, 5])
     for _ in range(n):
         r = rng.random()
-        ln = rng.choice([0, 1, 2, 3, 4, 5, 17, 255, 256, 300])
+        # lengths at the ANNOUNCED limit too (2^k, which is above a configured maximum that is not a power of two)
+        ln = rng.choice([0, 1, 2, 3, 4, 5, 17, 255, 256, 300] + ([max_recv - 7, max_recv - 1, max_recv] if max_recv <= 65536 else []))
         ln = min(ln, max_recv)
         payload = rng.randbytes(ln)
         if r < 0.62:
@@ -378,7 +379,7 @@ def gen_stream(rng, fw, role, ser_id, max_recv):
             first = first or trigger
             break
         # truncated frame at the end of the stream: stays buffered, nothing happens
-        full = enc_frame(rng.choice([0, 0, 1, 2]) if fw == "asyncio" else 0, payload + b"x")
+        full = enc_frame(rng.choice([0, 0, 1, 2]) if fw == "asyncio" else 0, payload[:max(0, max_recv - 1)] + b"x")
         out += full[:rng.randrange(1, len(full))]
         trigger, end = "truncated", "open"
         first = first or trigger
